@@ -5,6 +5,18 @@ HERE = os.path.dirname(os.path.dirname(os.path.abspath(__file__)))
 ALL = ['C%02d' % i for i in range(1, 21)]
 
 CHECKS = {
+ 'C04': dict(
+  text="Lean 4 theorems, parametric in the prf: prf+ as coded (loop shape, counter start and operand order extracted from crypto.py) equals the RFC 7296 2.13 stream T1|T2|... for every key, seed and output length up to 255 blocks and raises beyond; SKEYSEED and the seven SK_* (initial and rekey), CHILD KEYMAT with/without g^ir equal the RFC split for all nonces/SPIs/secrets and all size triples, where the split template, argument order and keymat-slot to Keyring-field data flow are regenerated from ikesa.py on every run; algorithm size tables, the five MODP primes (= RFC 3526 formula by kernel evaluation), generator, hex widths and the RFC 5903 curve table are compared by `decide`; MODP agreement (g^a)^b = (g^b)^a proved. Model validated differentially (Lean SHA-1/256/512 + HMAC driver vs the real Prf/IkeSa.generate_*_key_material/DiffieHellman).",
+  note="Trusted: Lean kernel, extract/ (gen_crypto.py), the prf as an uninterpreted function of fixed output length in the theorems (HMAC itself is validated only differentially), OpenSSL for curve arithmetic. Primality of the MODP constants is not proved. piBits literal is recomputed only when mpmath is available.",
+  technique="Lean 4 proof (loop invariant for prf+, list algebra for the key split interpreted from extracted data flow, decide +kernel for constants) + differential correspondence", ref="DESIGN.md §5 C04"),
+ 'C11': dict(
+  text="Lean 4 theorems over the executable negotiation model, for all proposals of any size: the intersection lies within both offers (type, id, key length), has exactly one transform per locally required type, chosen in local preference order, carries the peer's number/SPI; none iff protocols differ or a required type has no common transform; the first acceptable peer proposal is answered else NO_PROPOSAL_CHOSEN; initiator accepts only responses drawn from its offer; KE group mismatch names the chosen group; a never-offered suggested group is refused. Model validated differentially against Proposal.intersection/is_subset/__eq__, IkeSa._select_best_sa_proposal and handle_invalid_ke on exhaustive small universes and random larger ones.",
+  note="Trusted: Lean kernel, extract/, Transform.__eq__ (hash of a 3-tuple) modelled as structural equality; the placement of the negotiation calls inside the IKE_SA handlers is covered by the state-machine checks, not here.",
+  technique="Lean 4 proof (induction over transform lists with accumulator invariant) + exhaustive differential correspondence", ref="DESIGN.md §5 C11"),
+ 'C12': dict(
+  text="Lean 4 theorems over the executable selector model, for all address widths, ranges, ports and protocols: is_subset coincides with inclusion of the denoted packet sets (non-empty selectors); range->network->range round trip for every prefix block and port, the supernet loop bounded by the address width; the responder's policy lookup returns selectors contained in an offered pair and in the policy or refuses (TS_UNACCEPTABLE) exactly when no policy matches; rekey selectors must equal the replaced SA's; mode must match; an initiator never installs a widened response. Model validated differentially against TrafficSelector and IkeSa._get_ipsec_configuration exhaustively over a small universe and on random IPv4/IPv6 ranges.",
+  note="Trusted: Lean kernel, extract/, ipaddress ordering/supernet semantics. Kernel selectors are exact only for prefix-aligned ranges (everything from_network produces); a foreign non-aligned range is widened to the enclosing prefix (observation N3).",
+  technique="Lean 4 proof (interval arithmetic with omega, packet-set semantics) + exhaustive differential correspondence", ref="DESIGN.md §5 C12"),
  'C05': dict(
   text="Lean 4 theorems over the executable codec model: parse(to_bytes(m)) = m for every well-formed cleartext message of any size (all payload classes, nested SA), per-payload round trips, extension of a chain rejected, unknown non-critical payloads skipped and critical ones rejected; format strings, pack formats and the payload-class table are regenerated from message.py on every run and compared by `decide`; the model is validated differentially (Lean encoder/parser vs Message.to_bytes/parse) and the dump clause by an oracle on the real code.",
   note="Trusted: Lean kernel, extract/, hand transcription of RFC 7296 section 3 layouts in Impl.enc* (cross-checked against the implementation on every generated message), Wf predicate = what struct.pack accepts. Idempotence on arbitrary accepted byte strings, rejection of proper prefixes and the dump clause are checked by oracle on generated inputs, not proved.",
